@@ -170,10 +170,14 @@ Qed.
 Lemma kind_eqb_refl k : kind_eqb k k = true.
 Proof. destruct k; reflexivity. Qed.
 
-Lemma iface_refines r id : inv r ->
-  obs (out_named (interface_traits r id)) = s_by_id (abs r) KInterface id.
+Lemma iface_refines' r id : inv r ->
+  obs (out_named (interface_traits r id)) =
+  match s_get (abs r) id with
+  | Some d => if kind_eqb (d_kind d) KInterface then s_entry id d else SRefused
+  | None => SRefused
+  end.
 Proof.
-  intros I. ranges. unfold s_by_id. rewrite abs_get.
+  intros I. ranges. rewrite abs_get.
   destruct (interface_traits r id) as [[e|x]| |] eqn:Ei.
   - pose proof (iface_entry_range r id e Ei).
     destruct (lookup_in_named r id e I (or_introl Ei)) as [_ T].
@@ -189,10 +193,18 @@ Proof.
   - destruct (interface_traits_ok r id I) as [z Hz]. congruence.
 Qed.
 
-Lemma meta_refines r id : inv r ->
-  obs (out_named (metatype_traits r id)) = s_by_id (abs r) KMetatype id.
+Lemma iface_refines r id : inv r ->
+  obs (out_named (interface_traits r id)) = s_by_id (abs r) KInterface id.
+Proof. intros I. unfold s_by_id. apply iface_refines', I. Qed.
+
+Lemma meta_refines' r id : inv r ->
+  obs (out_named (metatype_traits r id)) =
+  match s_get (abs r) id with
+  | Some d => if kind_eqb (d_kind d) KMetatype then s_entry id d else SRefused
+  | None => SRefused
+  end.
 Proof.
-  intros I. ranges. unfold s_by_id. rewrite abs_get.
+  intros I. ranges. rewrite abs_get.
   destruct (metatype_traits r id) as [[e|x]| |] eqn:Em.
   - pose proof (meta_entry_range r id e Em).
     destruct (lookup_in_named r id e I (or_intror Em)) as [_ T].
@@ -207,6 +219,10 @@ Proof.
   - destruct (metatype_traits_ok r id I) as [z Hz]. congruence.
   - destruct (metatype_traits_ok r id I) as [z Hz]. congruence.
 Qed.
+
+Lemma meta_refines r id : inv r ->
+  obs (out_named (metatype_traits r id)) = s_by_id (abs r) KMetatype id.
+Proof. intros I. unfold s_by_id. apply meta_refines', I. Qed.
 
 (* ---------- lookup by name ---------- *)
 Lemma find_ext' {A} (p q : A -> bool) l : (forall x, p x = q x) -> find p l = find q l.
@@ -409,7 +425,7 @@ Lemma rows_iface r ids : inv r ->
 Proof.
   intros I. unfold sweep_named, s_rows. induction ids as [|id ids IH]; [reflexivity|].
   cbn [flat_map]. rewrite map_app, IH. f_equal.
-  pose proof (iface_refines r id I) as H. unfold s_by_id in H.
+  pose proof (iface_refines' r id I) as H.
   destruct (interface_traits r id) as [[e|x]| |]; cbn [out_named obs] in H;
     destruct (s_get (abs r) id) as [d|]; try discriminate; try reflexivity;
     destruct (kind_eqb (d_kind d) KInterface); try discriminate; try reflexivity.
@@ -422,7 +438,7 @@ Lemma rows_meta r ids : inv r ->
 Proof.
   intros I. unfold sweep_named, s_rows. induction ids as [|id ids IH]; [reflexivity|].
   cbn [flat_map]. rewrite map_app, IH. f_equal.
-  pose proof (meta_refines r id I) as H. unfold s_by_id in H.
+  pose proof (meta_refines' r id I) as H.
   destruct (metatype_traits r id) as [[e|x]| |]; cbn [out_named obs] in H;
     destruct (s_get (abs r) id) as [d|]; try discriminate; try reflexivity;
     destruct (kind_eqb (d_kind d) KMetatype); try discriminate; try reflexivity.
